@@ -107,11 +107,22 @@ def decLevel (l : Lvl) (r : Rid) : Lvl :=
 
 /-! ### State of all levels, API calls as the code composes them -/
 
-abbrev St := Key → Lvl
+/-- Finite map from level keys to values with a default (the Go maps `quotaGroups` / the shared
+    context): the newest binding of a key wins. -/
+def KMap (α : Type) := List (Key × α)
 
-def St.init : St := fun _ => Lvl.init
+def KMap.get {α : Type} (d : α) : KMap α → Key → α
+  | [], _ => d
+  | (k', v) :: rest, k => if k' = k then v else KMap.get d rest k
 
-def St.set (st : St) (k : Key) (l : Lvl) : St := fun k' => if k' = k then l else st k'
+def KMap.set {α : Type} (m : KMap α) (k : Key) (v : α) : KMap α := (k, v) :: m
+
+abbrev St := KMap Lvl
+
+def St.init : St := []
+
+/-- The level `k` (a level never touched is in its initial state). -/
+def St.at (st : St) (k : Key) : Lvl := KMap.get Lvl.init st k
 
 /-- `fixedWindow.Inc`: the parent is incremented only when the child answered `increased`;
     the parent's own answer is ignored. -/
@@ -119,7 +130,7 @@ def incChain (st : St) : List (QId × QuotaCfg) → Rid → Nat → Hdrs → St
   | [], _, _, _ => st
   | (a, c) :: rest, r, t, h =>
     let k := (a, groupOf c h)
-    let (l', res) := incLevel c.max c.win (st k) r t
+    let (l', res) := incLevel c.max c.win (st.at k) r t
     let st' := st.set k l'
     match res with
     | .increased => incChain st' rest r t h
@@ -130,7 +141,7 @@ def allowedChain (st : St) : List (QId × QuotaCfg) → Rid → Hdrs → St × B
   | [], _, _ => (st, true)
   | (a, c) :: rest, r, h =>
     let k := (a, groupOf c h)
-    let (l', b) := allowedLevel (st k) r
+    let (l', b) := allowedLevel (st.at k) r
     let st' := st.set k l'
     if b then allowedChain st' rest r h else (st', false)
 
@@ -139,7 +150,7 @@ def decChain (st : St) : List (QId × QuotaCfg) → Rid → Hdrs → St
   | [], _, _ => st
   | (a, c) :: rest, r, h =>
     let k := (a, groupOf c h)
-    decChain (st.set k (decLevel (st k) r)) rest r h
+    decChain (st.set k (decLevel (st.at k) r)) rest r h
 
 /-- The limiter processor: `Inc` then `Allowed` on the same quota. -/
 def limiter (cfg : Cfg) (st : St) (q : QId) (r : Rid) (t : Nat) (h : Hdrs) : St × Bool :=
@@ -227,7 +238,7 @@ def stepThread (cfg : Cfg) (st : St) (now : Nat) (tid : Nat) (th : Thread) : St 
     if thenA then (st, .allowed (chain cfg th.q), []) else (st, .done none, [])
   | .inc ((a, c) :: rest) thenA =>
     let k := (a, groupOf c th.h)
-    let (l', res) := incLevel c.max c.win (st k) th.r now
+    let (l', res) := incLevel c.max c.win (st.at k) th.r now
     let pc' := match res, rest with
       | .increased, _ :: _ => Pc.inc rest thenA
       | _, _ => if thenA then Pc.allowed (chain cfg th.q) else Pc.done none
@@ -235,7 +246,7 @@ def stepThread (cfg : Cfg) (st : St) (now : Nat) (tid : Nat) (th : Thread) : St 
   | .allowed [] => (st, .done (some true), [LEv.verdict tid th.r th.q true])
   | .allowed ((a, c) :: rest) =>
     let k := (a, groupOf c th.h)
-    let (l', b) := allowedLevel (st k) th.r
+    let (l', b) := allowedLevel (st.at k) th.r
     if b then
       match rest with
       | [] => (st.set k l', .done (some true), [LEv.verdict tid th.r th.q true, LEv.allowed k th.r true])
@@ -244,7 +255,7 @@ def stepThread (cfg : Cfg) (st : St) (now : Nat) (tid : Nat) (th : Thread) : St 
   | .dec [] => (st, .done none, [])
   | .dec ((a, c) :: rest) =>
     let k := (a, groupOf c th.h)
-    (st.set k (decLevel (st k) th.r), .dec rest, [LEv.dec k th.r])
+    (st.set k (decLevel (st.at k) th.r), .dec rest, [LEv.dec k th.r])
   | .done v => (st, .done v, [])
 
 def Sys.act (cfg : Cfg) (s : Sys) : Act → Sys
